@@ -530,3 +530,69 @@ func runWalVersion(c *Ctx, r *RuleRun) {
 		r.Undecided(fn, "answers", p.Pos(cmp.Pos()), "fewer than three constant answers (-1, 0, 1)")
 	}
 }
+
+func init() {
+	register(&Rule{ID: "SKIP.UNLINK", Engine: "E-GUARD", Min: 2,
+		Desc: "Delete unlinks exactly the element it found: a predecessor's forward pointer is redirected only where it points at that element, and it is redirected to the element's own successor at that level",
+		Run:  runSkipUnlink})
+}
+
+func runSkipUnlink(c *Ctx, r *RuleRun) {
+	p := c.P
+	del := p.Fn("pkg/skiplist", "SkipList", "Delete")
+	nextF := p.Field("pkg/skiplist", "Element", "next")
+	if del == nil || nextF == nil {
+		r.Undecided("-", "SkipList.Delete", "", "anchor not found")
+		return
+	}
+	fn := p.FnName(del)
+	o := nfOpts{p: p, depth: 8}
+	n := 0
+	eachInstr(del, func(ins ssa.Instruction) {
+		st, ok := ins.(*ssa.Store)
+		if !ok || !inLoop(st.Block()) {
+			return
+		}
+		ia, ok := st.Addr.(*ssa.IndexAddr)
+		if !ok {
+			return
+		}
+		if fv, _ := loadedField(ia.X); fv != nextF {
+			return
+		}
+		// a store into some element's next[i]; only those guarded by a comparison with the found element matter
+		n++
+		addrNF := o.nf(st.Addr)
+		var found ssa.Value
+		okGuard := hasFact(st, func(cm Cmp) bool {
+			if cm.Y == nil || cm.Op != "==" {
+				return false
+			}
+			for _, pair := range [][2]ssa.Value{{cm.X, cm.Y}, {cm.Y, cm.X}} {
+				if u, ok := pair[0].(*ssa.UnOp); ok && u.Op == token.MUL && o.nf(u.X) == addrNF {
+					found = pair[1]
+					return true
+				}
+			}
+			return false
+		})
+		r.Check(okGuard, fn, "redirected only where it points at the found element", p.Pos(instrPos(st)), "dominated by pred.next[i] == found",
+			"a predecessor's forward pointer is overwritten without the test that it points at the element being deleted (or under its negation): other elements are cut out of the list, or the element stays linked")
+		if !okGuard || found == nil {
+			return
+		}
+		// the new target: found.next[i] with the same i
+		okVal := false
+		if u, ok := st.Val.(*ssa.UnOp); ok && u.Op == token.MUL {
+			if ia2, ok := u.X.(*ssa.IndexAddr); ok && ia2.Index == ia.Index {
+				if fv, base := loadedField(ia2.X); fv == nextF && stripValue(base) == stripValue(found) {
+					okVal = true
+				}
+			}
+		}
+		r.Check(okVal, fn, "redirected to the element's successor", p.Pos(instrPos(st)), "pred.next[i] = found.next[i]", "the forward pointer is not redirected to the deleted element's own successor at that level: the rest of the list is lost or a cycle is created")
+	})
+	if n == 0 {
+		r.Undecided(fn, "redirected only where it points at the found element", "", "no store to a forward pointer in a loop of Delete")
+	}
+}
